@@ -152,7 +152,8 @@ def parseHandle : List Sexp → Option Sexp
       match entry, opts with
       | "plain", [] => pure (ofBool (plainTable g))
       -- C06: do the executable hypotheses of the termination theorem hold of this table (depth / analysis bound = its size)?
-      | "termcheck", [] => pure (.list [ofBool (depthOk g g.length root), ofBool (advOk g g.length)])
+      | "termcheck", [] => pure (.list [ofBool (depthOk g g.length root), ofBool (advOk g g.length),
+                                        ofBool (recTableOk g g.length g.length), ofNat g.length])
       | "parse", [] => pure (outSexpNoEnd (parseString p g root dw s false))
       | "parseNames", [] => pure (outSexpNames (parseString p g root dw s false))
       | "parseAll", [] => pure (outSexpNoEnd (parseString p g root dw s true))
